@@ -1415,10 +1415,28 @@ func runSweep(c SweepCase, o *vh.Obs) *vh.Failure {
 type SLCase struct {
 	W    WRCase
 	File string // base name of the .obj file
+	// Drop != 0: after the round trip the material file is rewritten without some of its newmtl blocks
+	// (bit k drops block k; at least one is kept and one dropped) - an export whose material library
+	// defines only part of the names the model uses - and the model is loaded and saved again
+	Drop int `json:",omitempty"`
 }
 
 func genSL(t *rapid.T) SLCase {
-	return SLCase{W: genWR(t), File: rapid.SampledFrom([]string{"mesh.obj", "m.v2.obj", "UPPER.OBJ", "noext", "deep/er/model.obj", "x.obj"}).Draw(t, "file")}
+	c := SLCase{W: genWR(t), File: rapid.SampledFrom([]string{"mesh.obj", "m.v2.obj", "UPPER.OBJ", "noext", "deep/er/model.obj", "x.obj"}).Draw(t, "file")}
+	if rapid.Bool().Draw(t, "dropSome") {
+		c.Drop = rapid.IntRange(1, 62).Draw(t, "drop")
+	}
+	return c
+}
+
+func countFaces(text string) int {
+	n := 0
+	for _, l := range strings.Split(text, "\n") {
+		if strings.HasPrefix(strings.TrimSpace(l), "f ") {
+			n++
+		}
+	}
+	return n
 }
 
 var slFileRe = regexp.MustCompile(`^[A-Za-z0-9_./-]{1,40}$`)
@@ -1500,6 +1518,59 @@ func runSL(c SLCase, o *vh.Obs) *vh.Failure {
 				return vh.Failf("save-load/material-object-per-range", "material %q is two different objects after Load", r.Material.Name)
 			}
 			byName[r.Material.Name] = r.Material
+		}
+	}
+	// a material library that defines only part of the names: loading and saving again loses no face
+	if c.Drop != 0 && anyMat {
+		lib := ""
+		for _, l := range strings.Split(text, "\n") {
+			if strings.HasPrefix(l, "mtllib ") {
+				lib = strings.TrimSpace(strings.TrimPrefix(l, "mtllib "))
+			}
+		}
+		mb, err := os.ReadFile(filepath.Join(filepath.Dir(path), lib))
+		if lib == "" || err != nil {
+			o.Count("no-material-file-not-judged", 1)
+			return nil
+		}
+		blocks := strings.Split(string(mb), "newmtl ")
+		if len(blocks) < 3 { // preamble + at least two materials
+			o.Count("fewer-than-two-materials-not-judged", 1)
+			return nil
+		}
+		kept, dropped := blocks[0], 0
+		for k, b := range blocks[1:] {
+			if c.Drop>>uint(k%6)&1 == 1 && dropped < len(blocks)-2 {
+				dropped++
+				continue
+			}
+			kept += "newmtl " + b
+		}
+		if dropped == 0 {
+			o.Count("nothing-dropped-not-judged", 1)
+			return nil
+		}
+		if err := os.WriteFile(filepath.Join(filepath.Dir(path), lib), []byte(kept), 0o644); err != nil {
+			return vh.Failf("harness/write-mtl", "%v", err)
+		}
+		o.Class("save-load/material-file-defines-a-subset")
+		var again []obj.ObjMesh
+		if kind, val := oracle.Try(func() { again, lerr = obj.Load(path) }); kind != "" {
+			return vh.Failf("save-load/subset-load-panic-"+kind, "loading a model whose material file defines %d of %d names panicked: %v", len(blocks)-1-dropped, len(blocks)-1, val)
+		}
+		if lerr != nil {
+			return vh.Failf("save-load/subset-load-error", "loading a model whose material file defines part of the names failed: %v", lerr)
+		}
+		buf := &bytes.Buffer{}
+		var werr error
+		if kind, val := oracle.Try(func() { werr = obj.WriteMeshes(again, "", buf) }); kind != "" {
+			return vh.Failf("save-load/subset-save-panic-"+kind, "saving what was loaded panicked: %v", val)
+		}
+		if werr != nil {
+			return vh.Failf("save-load/subset-save-error", "saving what was loaded failed: %v", werr)
+		}
+		if a, b := countFaces(text), countFaces(buf.String()); a != b {
+			return vh.Failf("save-load/subset-face-count", "the file has %d faces; loaded with a material file that defines %d of its %d materials and saved again it has %d\n%s", a, len(blocks)-1-dropped, len(blocks)-1, b, clip(text))
 		}
 	}
 	return nil
